@@ -532,10 +532,20 @@ func errHeededAfter(call ssa.CallInstruction) (bool, string) {
 			continue
 		}
 		ok := true
-		for _, r := range core.Returns(call.Parent()) {
-			if (r.Block() == t.Fail || core.CanReach(t.Fail, r.Block())) && core.ClassifyReturn(r, fail, nil) != core.RetFailure && !wrapsFailure(r, fail) {
-				ok = false
-				why = "a possibly successful return is reachable from the rejecting edge"
+		if t.Value != nil {
+			bad, _ := core.FailEdgeBadReturns(t, t.Value, core.ErrNonNil, nil, nil)
+			for _, r := range bad {
+				if !wrapsFailure(r, fail) {
+					ok = false
+					why = "a possibly successful return is reachable from the rejecting edge"
+				}
+			}
+		} else {
+			for _, r := range core.Returns(call.Parent()) {
+				if (r.Block() == t.Fail || core.CanReach(t.Fail, r.Block())) && core.ClassifyReturn(r, fail, nil) != core.RetFailure && !wrapsFailure(r, fail) {
+					ok = false
+					why = "a possibly successful return is reachable from the rejecting edge"
+				}
 			}
 		}
 		if ok {
